@@ -1,5 +1,65 @@
-"""Thorough tier: mutant battery (placeholder until the battery is wired in)."""
+"""Thorough tier: the checker tests itself against the stored corpus on scratch copies of the *current* tree.
+
+For property P: every stored seeded change and reverse-fix that breaks P must make `./check P` report a violation, and every stored
+behaviour-preserving refactoring must leave it silent (only asserted when P holds on the current tree).  Patches that do not apply
+to the current tree are skipped and counted.  Scratch copies live under the system temp directory and are removed after each run.
+A failed self-test prints `SELFTEST-FAIL ...` and makes the thorough command exit 3 (the checker is broken, not the property)."""
+import concurrent.futures
+import glob
+import json
+import os
+import sys
+
+VERIF = os.path.dirname(os.path.dirname(os.path.abspath(__file__)))
+sys.path.insert(0, os.path.join(VERIF, "tools"))
 
 
-def run(prop, rep):
-    return 0
+def corpus(prop):
+    import regress
+    work = []
+    for d in sorted(glob.glob(os.path.join(VERIF, "seeded", "*"))):
+        try:
+            meta = json.load(open(os.path.join(d, "meta.json")))
+        except OSError:
+            continue
+        if meta.get("property") == prop:
+            work.append((os.path.join(d, "patch.diff"), "detect"))
+    for p in sorted(glob.glob(os.path.join(VERIF, "mutants", "*.patch"))):
+        exp = regress.REVFIX.get(os.path.basename(p)[:-6], [])
+        if exp and exp[0] == prop:
+            work.append((p, "detect"))
+    for p in sorted(glob.glob(os.path.join(VERIF, "benign", "*.patch"))):
+        work.append((p, "silent"))
+    return work
+
+
+def run(prop, rep, base_holds=True, jobs=None):
+    import mutant_test
+    work = corpus(prop)
+    if not base_holds:
+        work = [w for w in work if w[1] == "detect"]
+    jobs = jobs or min(8, os.cpu_count() or 4)
+    res = {"detect": [0, 0], "silent": [0, 0], "skipped": 0, "failures": []}
+
+    def one(w):
+        return w, mutant_test.run(w[0], [prop], quiet=True)
+    with concurrent.futures.ThreadPoolExecutor(max_workers=jobs) as ex:
+        for (patch, want), out in ex.map(one, work):
+            name = os.path.relpath(patch, VERIF)
+            if out is None:
+                res["skipped"] += 1
+                continue
+            rc = out[prop][0]
+            res[want][1] += 1
+            if (want == "detect" and rc == 1) or (want == "silent" and rc == 0):
+                res[want][0] += 1
+            else:
+                res["failures"].append({"patch": name, "expected": want, "exit": rc, "first": (out[prop][1] or [""])[0][:300]})
+    rep.extra["selftest"] = {"seeded_and_reverse_fixes_detected": f"{res['detect'][0]}/{res['detect'][1]}",
+                             "benign_refactorings_silent": f"{res['silent'][0]}/{res['silent'][1]}",
+                             "patches_not_applicable_to_this_tree": res["skipped"], "failures": res["failures"]}
+    print(f"SELFTEST {prop}: breaking changes detected {res['detect'][0]}/{res['detect'][1]}, behaviour-preserving refactorings silent "
+          f"{res['silent'][0]}/{res['silent'][1]}, {res['skipped']} patches do not apply to this tree")
+    for f in res["failures"]:
+        print(f"SELFTEST-FAIL property={prop} patch={f['patch']} expected={f['expected']} exit={f['exit']} {f['first']}")
+    return 3 if res["failures"] else 0
